@@ -4,7 +4,7 @@ from .. import harness, gen, pyref, gadgets as G, coq, model
 from ..curve import *
 
 VO = ['Props/C13.vo', 'Tie/Gadgets.vo', 'Props/C14.vo']
-FILES = ['Props/C13.v', 'Tie/Gadgets.v', 'Proofs/GadgetProofs.v', 'Proofs/WrapperProofs.v', 'Model/Wrapper.v', 'Proofs/Codec.v', 'Proofs/Elligator.v']
+FILES = ['Props/C13.v', 'Tie/Gadgets.v', 'Proofs/GadgetProofs.v', 'Proofs/WrapperProofs.v', 'Proofs/WrapperNative.v', 'Model/Wrapper.v', 'Proofs/Codec.v', 'Proofs/Elligator.v']
 
 def honest_cases(ctx, scale):
     rng = ctx.rng; pool = Pool('ark', rng.fork('pool'), n_rand=4 * scale)
@@ -76,7 +76,7 @@ def lazy_checks(ctx, scale):
     return len(lines), fails
 
 
-HIST_CODE = {'e': 0, 'c': 1, 'v': 2, 'a': 3, 'A': 3, 'k': 9, 'p': 3, 's': 4, 'S': 4, 'j': 10, 'm': 4, 'd': 5, 'n': 6, 'q': 7, 'x': 8}
+HIST_CODE = {'e': 0, 'c': 1, 'v': 2, 'a': 3, 'A': 3, 'k': 9, 'p': 3, 's': 4, 'S': 4, 'j': 10, 'm': 4, 'd': 5, 'n': 6, 'q': 7, 'x': 8, 'i': 11}
 MODE_KIND = {'const': 0, 'witness': 2, 'input': 3}
 
 def parse_reads(s):
@@ -88,6 +88,8 @@ def parse_reads(s):
         if k == 'c':
             try: out.append(('c', int(v, 16)))
             except ValueError: out.append(('c', None))
+        elif k in ('b', 'u'):
+            out.append((k, int(v) if v in ('0', '1') else None))
         else:
             try:
                 c = [int(x, 16) for x in v.split(',')]
@@ -100,8 +102,8 @@ def history_checks(ctx, pool, scale):
     out-of-place group operations in between, reads at every point): implementation vs the Coq model (Model/Wrapper.v,
     extracted) and vs the same history on a native Element (the property predicate)."""
     rng = ctx.rng; fails = []; mism = []
-    letters = 'ecvaAksSjdnpmqx'
-    hists = ['c', 'v', 'cac', 'cdc', 'cAcv', 'ckc', 'csc', 'cSc', 'cjc', 'cnc', 'cpc', 'cmc', 'cqc', 'cxc', 'ecac', 'vcdcv', 'cvacvdc', 'ccaac', 'cdedc', 'vnvcnc', 'cacscdc']
+    letters = 'ecvaAksSjdnpmqxiiu'
+    hists = ['i', 'u', 'ci', 'ic', 'iu', 'aiu', 'cui', 'c', 'v', 'cac', 'cdc', 'cAcv', 'ckc', 'csc', 'cSc', 'cjc', 'cnc', 'cpc', 'cmc', 'cqc', 'cxc', 'ecac', 'vcdcv', 'cvacvdc', 'ccaac', 'cdedc', 'vnvcnc', 'cacscdc']
     for _ in range(10 * scale):
         n = 2 + rng.below(7)
         h = ''.join(rng.choice(letters) for _ in range(n))
@@ -115,14 +117,15 @@ def history_checks(ctx, pool, scale):
         for mode in ('witness', 'input', 'const'):
             lines.append('r1.hist %s %s %s %s' % (mode, E(a), E(b), h))
             k = MODE_KIND[mode]
-            mlines.append('g r1.hist %d %d %d %d %d %d %s' % (k, ax, ay, k, bx, by, ' '.join(str(HIST_CODE[c]) for c in h)))
+            mlines.append('g r1.hist %d %d %d %d %d %d %s' % (k, ax, ay, k, bx, by, ' '.join(str(HIST_CODE.get(c, 8)) for c in h)))
             nat.append('el.hist %s %s %s' % (E(a), E(b), h)); meta.append((h, mode, None))
         ss = pool.encodable + [0, 3, 1, Q - 1, gen.rand_field(rng, Q)]
-        s = rng.choice(ss)
-        for mode in ('witness', 'input'):
-            lines.append('r1.hist.enc %s %x %s %s' % (mode, s, E(b), h))
-            mlines.append('g r1.hist 1 %d 0 %d %d %d %s' % (s, MODE_KIND[mode], bx, by, ' '.join(str(HIST_CODE[c]) for c in h)))
-            nat.append('el.hist.enc %x %s %s' % (s, E(b), h)); meta.append((h, mode, s))
+        # the short histories see a valid encoding AND every kind of invalid one (negative, non-square, s = -1); the others a random pick
+        for s in ([8, 1, 3, Q - 1] if len(h) <= 3 else [rng.choice(ss)]):
+            for mode in ('witness', 'input'):
+                lines.append('r1.hist.enc %s %x %s %s' % (mode, s, E(b), h))
+                mlines.append('g r1.hist 1 %d 0 %d %d %d %s' % (s, MODE_KIND[mode], bx, by, ' '.join(str(HIST_CODE.get(c, 8)) for c in h)))
+                nat.append('el.hist.enc %x %s %s' % (s, E(b), h)); meta.append((h, mode, s))
     hout = harness.run_script('ark', lines)
     nout = harness.run_script('ark', nat)
     mout = model.run_model(mlines)
@@ -130,6 +133,8 @@ def history_checks(ctx, pool, scale):
         d = G.parse_r1(o)
         if 'sat' not in d or 'reads' not in d:
             if 'UNSUPPORTED' in o: continue
+            if 'u' in h and 'err' in d and any(k == 'u' and v == 0 for k, v in parse_reads(no if no != 'ERR' else '-')):
+                continue      # an enforced equality that does not hold natively: on constants ark-r1cs-std reports it as a synthesis error
             if d.get('sat') == '0' and 'err' in d and m and m[0] == 0:
                 # synthesis stopped with an error after the system became unsatisfiable (e.g. DivisionByZero while doubling the
                 # non-point decoded from an invalid encoding): model and implementation agree on the verdict; the native history must fail too
@@ -147,8 +152,9 @@ def history_checks(ctx, pool, scale):
         j = 1
         while isinstance(m, list) and j < len(m) and m[0] in (0, 1):
             if m[j] == 0: exp.append(('c', m[j + 1])); j += 2
+            elif m[j] == 2: exp.append(('b', m[j + 1])); j += 2
             else: exp.append(('v', (m[j + 1], m[j + 2]))); j += 3
-        if not m or m[0] != (1 if sat else 0) or (sat and exp != reads):
+        if 'u' not in h and (not m or m[0] != (1 if sat else 0) or (sat and exp != reads)):       # enforce_equal has no model op: predicate only
             mism.append({'line': l, 'implementation': o[:400], 'model': m})
         # (2) the property: satisfied exactly when the native history exists, and every value read is the native one
         native_ok = no != 'ERR' and not no.startswith('PANIC')
@@ -157,14 +163,19 @@ def history_checks(ctx, pool, scale):
             if sat and needs:
                 fails.append(('%s: satisfied although the native decoding of %x fails' % (l[:60], s), {'script': [l, nl], 'output': [o, no]}, {'class': 'history', 'what': 'completeness'}))
             continue
+        nreads = parse_reads(no)
+        want_sat = all(v == 1 for k, v in nreads if k == 'u')        # enforce_equal: satisfiable exactly when the operands are equal natively
+        nreads = [x for x in nreads if x[0] != 'u']
+        if not want_sat:
+            if sat: fails.append(('history %s on a %s variable: satisfied although an enforced equality does not hold natively' % (h, mode), {'script': [l, nl], 'output': [o, no]}, {'class': 'history', 'what': 'enforce'}))
+            continue
         if not sat:
             fails.append(('%s: honest synthesis is unsatisfied (%s)' % (l[:80], o[:80]), {'script': [l, nl], 'output': [o, no]}, {'class': 'history', 'what': 'unsat'})); continue
-        nreads = parse_reads(no)
         ok = len(nreads) == len(reads)
         if ok:
             for (k1, v1), (k2, v2) in zip(reads, nreads):
                 if k1 != k2 or v1 is None or v2 is None: ok = False
-                elif k1 == 'c': ok = ok and v1 == v2
+                elif k1 in ('c', 'b'): ok = ok and v1 == v2
                 else: ok = ok and pyref.coset_eq(v1, v2)
         if not ok:
             fails.append(('history %s on a %s variable: the gadget reads %s, the native history reads %s' % (h, mode, d['reads'][:200], no[:200]),
